@@ -10,7 +10,12 @@ From RU Require Import Base.Prelude Base.Utf8 Base.Utf8Facts Model.AsciiSet Gen.
   Proofs.C05_Comp Proofs.C05_PathClean Proofs.C05_CompSteps Proofs.C05_CompHist
   Proofs.C06_Path Proofs.C06_Segments Proofs.C04_ParseTotal Proofs.C03_ReachParts
   Proofs.C05_ParseUI Proofs.C05_ParseAll Proofs.C05_CompSteps2 Proofs.C05_CompReach Proofs.C05_ParseEx
-  Proofs.C03_WF Proofs.C06_Suffix Proofs.C05_BaseOk Proofs.C05_CompSteps3 Proofs.C05_FinEx Proofs.C05_Alphabet.
+  Proofs.C03_WF Proofs.C06_Suffix Proofs.C05_BaseOk Proofs.C05_CompSteps3 Proofs.C05_FinEx Proofs.C05_Alphabet
+  Proofs.C05_AuthOfs Proofs.C05_AuthParse Proofs.C05_HostText Proofs.C15_Ser Proofs.C05_Qpm Proofs.C05_ReachF Proofs.C05_FinEx2
+  Proofs.C05_HostClause Proofs.C05_HostParse Proofs.C05_HostInst
+  Proofs.C05_PathSp Proofs.C05_PathSpParse Proofs.C05_PathSpSteps Proofs.C05_ReachFSp.
+From RU Require Import Model.Host Proofs.C09_Host.
+From RU Require Import Model.FormUrlencoded Model.QueryPairs.
 
 (* ================= 1. encoder alphabet ================= *)
 
@@ -538,6 +543,274 @@ Print Assumptions C05_alphabet_reach.
    the reached record "http://1.2.3.4:81/w%20v" of C05_components_reach3_inhabited has a space-free host text *)
 Example C05_alphabet_reach_inhabited : fin_alphabet_stmt.
 Proof. exact fin_alphabet. Qed.
+
+(* ================= 5. the final reachability relation: no premise on joins, query_pairs_mut included ================= *)
+(* AS u (Proofs/C05_AuthOfs.v) := a special scheme is followed by "://" (scheme_end + 3 <= username_end; on a well-formed
+   record: has_authority).  It holds for EVERY record parse_url returns - any input numbers, any override, NO hypothesis
+   on the host functions - from a base that is well formed and satisfies AS.  With wf_b it gives base_ok (as_base_ok),
+   i.e. the premise of the join steps of CReach / CReach3. *)
+Theorem C05_special_authority_parse : forall dbg hp hpo hd ovr base input u,
+  match base with Some b => wf_b b = true /\ AS b | None => True end ->
+  parse_url dbg hp hpo hd ovr base input = POk u -> AS u.
+Proof. exact parse_url_as. Qed.
+Check C05_special_authority_parse : forall dbg hp hpo hd ovr base input u,
+  match base with Some b => wf_b b = true /\ AS b | None => True end ->
+  parse_url dbg hp hpo hd ovr base input = POk u -> AS u.
+Print Assumptions C05_special_authority_parse.
+
+(* ... and it is kept by every one of the 19 mutators with arbitrary arguments - no gate, no well-formedness: only the
+   offsets are followed.  The one mutator that removes "//" is set_host(None), and only when the scheme is not special
+   (second alternative; "file" keeps "file://"). *)
+Theorem C05_special_authority_step : forall dbg hp hpo hd u o u',
+  apply_op dbg hp hpo hd u o = Some u' -> AO u ->
+  AO u' \/ exists sty, u_scheme_type u = Some sty /\ st_is_special sty = false.
+Proof. exact apply_op_ao. Qed.
+Check C05_special_authority_step : forall dbg hp hpo hd u o u',
+  apply_op dbg hp hpo hd u o = Some u' -> AO u ->
+  AO u' \/ exists sty, u_scheme_type u = Some sty /\ st_is_special sty = false.
+Print Assumptions C05_special_authority_step.
+
+(* what one gated step does to the scheme class and to the stored host text (FR, Proofs/C05_HostText.v):
+   new scheme special -> old scheme special; host_str stays, becomes None, or becomes the Display of an address value
+   (set_ip_host) or of a host returned by the host parser of the scheme class of the URL (hp for special schemes, hpo
+   otherwise) *)
+Theorem C05_step_frame : forall dbg hp hpo hd u o u', HostWf hp hpo hd -> IpDisp hd ->
+  CInv dbg u -> step_gate3 hp hpo hd u o u' -> apply_op dbg hp hpo hd u o = Some u' -> FR hp hpo hd u u'.
+Proof. intros dbg hp hpo hd u o u' HW HI. exact (frame_step3 dbg hp hpo hd HW u o u' HI). Qed.
+Check C05_step_frame : forall dbg hp hpo hd u o u', HostWf hp hpo hd -> IpDisp hd ->
+  CInv dbg u -> step_gate3 hp hpo hd u o u' -> apply_op dbg hp hpo hd u o = Some u' -> FR hp hpo hd u u'.
+Print Assumptions C05_step_frame.
+
+(* the host text of a parse result, for ANY input numbers (C05_bytes needs scalar values for the head of an opaque path;
+   the host text does not): the result lies entirely inside 0x21..0x7E or has no host *)
+Theorem C05_parse_host_bytes : forall dbg dbg' hp hpo hd ovr base input u, HostOK hp hpo hd ->
+  match base with
+  | Some b => CInv dbg' b /\ Forall ok_or_space (ser b) /\ bk b /\ HTx (fun s => ~ In 32 s) b
+  | None => True
+  end ->
+  parse_url dbg hp hpo hd ovr base input = POk u -> Forall ok_byte (ser u) \/ hosti u = HI_None.
+Proof. intros dbg dbg' hp hpo hd ovr base input u HOK. exact (parse_url_host_bytes dbg hp hpo hd ovr HOK dbg' base input u). Qed.
+Check C05_parse_host_bytes : forall dbg dbg' hp hpo hd ovr base input u, HostOK hp hpo hd ->
+  match base with
+  | Some b => CInv dbg' b /\ Forall ok_or_space (ser b) /\ bk b /\ HTx (fun s => ~ In 32 s) b
+  | None => True
+  end ->
+  parse_url dbg hp hpo hd ovr base input = POk u -> Forall ok_byte (ser u) \/ hosti u = HI_None.
+Print Assumptions C05_parse_host_bytes.
+
+(* Url::query_pairs_mut sessions (Model/QueryPairs.v; operations with &str arguments, C15's op_ok): CInv, the byte
+   alphabet, the offsets scheme_end / username_end, the scheme and the host text are kept - the new query text consists
+   of bytes of the form_urlencoded output alphabet and of bytes of the old query *)
+Theorem C05_query_pairs_step : forall dbg u ops u', CInv dbg u -> Forall ok_or_space (ser u) -> Forall op_ok ops ->
+  query_pairs_session dbg u ops = Some u' ->
+  CInv dbg u' /\ Forall ok_or_space (ser u') /\ sf u u' /\ scheme u' = scheme u /\ host_str u' = host_str u.
+Proof. exact qpm_inv. Qed.
+Check C05_query_pairs_step : forall dbg u ops u', CInv dbg u -> Forall ok_or_space (ser u) -> Forall op_ok ops ->
+  query_pairs_session dbg u ops = Some u' ->
+  CInv dbg u' /\ Forall ok_or_space (ser u') /\ sf u u' /\ scheme u' = scheme u /\ host_str u' = host_str u.
+Print Assumptions C05_query_pairs_step.
+
+(* CReachF dbg hp hpo hd (Proofs/C05_ReachF.v): parse; parse against ANY reached record - NO premise on the base; a
+   step_gate3 step of any of the 19 mutators; a query_pairs_mut session with &str arguments.  CReach3 is a part of it
+   (C05_reach3_in_F); it is a part of ReachableQ = C05's Reachable plus query_pairs_mut sessions (C05_reachF_sub,
+   C05_reachable_in_Q).  Hypotheses: only those on the host functions -
+     HostWf (C03: parsed hosts print as a non-empty text that does not start with ':' / '@' and does not end with '/'),
+     HostOK (parsed hosts print inside 0x21..0x7E), IpDisp / IpOKv (the same two for address values).
+   FInv: CInv /\ AS /\ every byte inside 0x20..0x7E /\ the stored host text has no space. *)
+Theorem C05_reachF_invariant : forall dbg hp hpo hd u, HostWf hp hpo hd -> HostOK hp hpo hd -> IpDisp hd -> IpOKv hd ->
+  CReachF dbg hp hpo hd u -> FInv dbg u.
+Proof. intros dbg hp hpo hd u HW HOK HI HV. exact (creachF_inv dbg hp hpo hd HW HOK HI HV u). Qed.
+Check C05_reachF_invariant : forall dbg hp hpo hd u, HostWf hp hpo hd -> HostOK hp hpo hd -> IpDisp hd -> IpOKv hd ->
+  CReachF dbg hp hpo hd u -> FInv dbg u.
+Print Assumptions C05_reachF_invariant.
+
+(* every reached record is a possible base: the premise `base_ok b` of CR_join / CR3_join is an invariant *)
+Theorem C05_reachF_base_ok : forall dbg hp hpo hd u, HostWf hp hpo hd -> HostOK hp hpo hd -> IpDisp hd -> IpOKv hd ->
+  CReachF dbg hp hpo hd u -> base_ok u = true /\ host_text_ok u.
+Proof. intros dbg hp hpo hd u HW HOK HI HV. exact (creachF_base_ok dbg hp hpo hd HW HOK HI HV u). Qed.
+Check C05_reachF_base_ok : forall dbg hp hpo hd u, HostWf hp hpo hd -> HostOK hp hpo hd -> IpDisp hd -> IpOKv hd ->
+  CReachF dbg hp hpo hd u -> base_ok u = true /\ host_text_ok u.
+Print Assumptions C05_reachF_base_ok.
+
+(* the component clauses of the property text *)
+Theorem C05_components_reachF : forall dbg hp hpo hd u, HostWf hp hpo hd -> HostOK hp hpo hd -> IpDisp hd -> IpOKv hd ->
+  CReachF dbg hp hpo hd u -> wfh u /\ components_clean dbg u.
+Proof. intros dbg hp hpo hd u HW HOK HI HV. exact (creachF_components dbg hp hpo hd HW HOK HI HV u). Qed.
+Check C05_components_reachF : forall dbg hp hpo hd u, HostWf hp hpo hd -> HostOK hp hpo hd -> IpDisp hd -> IpOKv hd ->
+  CReachF dbg hp hpo hd u -> wfh u /\ components_clean dbg u.
+Print Assumptions C05_components_reachF.
+
+(* the first sentence of the property text, in both forms: alphabet_ok (ser u = A ++ path ++ Z, A and Z inside 0x21..0x7E,
+   the path too unless cannot-be-a-base) and `sharp` (the predicate of C05_bytes / C05_history_sharp_statement).  No
+   premise on the reached record is left (C05_alphabet_reach had "the stored host text has no space"). *)
+Theorem C05_alphabet_reachF : forall dbg hp hpo hd u, HostWf hp hpo hd -> HostOK hp hpo hd -> IpDisp hd -> IpOKv hd ->
+  CReachF dbg hp hpo hd u -> alphabet_ok u.
+Proof. intros dbg hp hpo hd u HW HOK HI HV. exact (creachF_alphabet dbg hp hpo hd HW HOK HI HV u). Qed.
+Check C05_alphabet_reachF : forall dbg hp hpo hd u, HostWf hp hpo hd -> HostOK hp hpo hd -> IpDisp hd -> IpOKv hd ->
+  CReachF dbg hp hpo hd u -> alphabet_ok u.
+Print Assumptions C05_alphabet_reachF.
+
+(* C05_history_sharp_statement with CReachF in the place of Reachable (and the two hypotheses HostWf, IpDisp that
+   well-formedness needs) *)
+Theorem C05_history_sharp_partial2 : forall dbg hp hpo hd u, HostWf hp hpo hd -> HostOK hp hpo hd -> IpDisp hd -> IpOKv hd ->
+  CReachF dbg hp hpo hd u -> sharp u.
+Proof. intros dbg hp hpo hd u HW HOK HI HV. exact (creachF_sharp dbg hp hpo hd HW HOK HI HV u). Qed.
+Check C05_history_sharp_partial2 : forall dbg hp hpo hd u, HostWf hp hpo hd -> HostOK hp hpo hd -> IpDisp hd -> IpOKv hd ->
+  CReachF dbg hp hpo hd u -> sharp u.
+Print Assumptions C05_history_sharp_partial2.
+
+Theorem C05_reach3_in_F : forall dbg hp hpo hd u, CReach3 dbg hp hpo hd u -> CReachF dbg hp hpo hd u.
+Proof. exact creach3_F. Qed.
+Check C05_reach3_in_F : forall dbg hp hpo hd u, CReach3 dbg hp hpo hd u -> CReachF dbg hp hpo hd u.
+Print Assumptions C05_reach3_in_F.
+
+(* the same for CReach3 itself: the premise `base_ok b` of CR3_join is redundant (every record of CReach3 satisfies it),
+   and C05_alphabet_reach holds without its premise on the host text, in the `sharp` form *)
+Theorem C05_reach3_sharp : forall dbg hp hpo hd u, HostWf hp hpo hd -> HostOK hp hpo hd -> IpDisp hd -> IpOKv hd ->
+  CReach3 dbg hp hpo hd u -> base_ok u = true /\ alphabet_ok u /\ sharp u.
+Proof.
+  intros dbg hp hpo hd u HW HOK HI HV R. pose proof (creach3_F dbg hp hpo hd u R) as RF.
+  split; [exact (proj1 (creachF_base_ok dbg hp hpo hd HW HOK HI HV u RF))|].
+  split; [exact (creachF_alphabet dbg hp hpo hd HW HOK HI HV u RF) | exact (creachF_sharp dbg hp hpo hd HW HOK HI HV u RF)].
+Qed.
+Check C05_reach3_sharp : forall dbg hp hpo hd u, HostWf hp hpo hd -> HostOK hp hpo hd -> IpDisp hd -> IpOKv hd ->
+  CReach3 dbg hp hpo hd u -> base_ok u = true /\ alphabet_ok u /\ sharp u.
+Print Assumptions C05_reach3_sharp.
+
+Theorem C05_reachF_sub : forall dbg hp hpo hd u, CReachF dbg hp hpo hd u -> ReachableQ dbg hp hpo hd u.
+Proof. exact creachF_Q. Qed.
+Check C05_reachF_sub : forall dbg hp hpo hd u, CReachF dbg hp hpo hd u -> ReachableQ dbg hp hpo hd u.
+Print Assumptions C05_reachF_sub.
+
+Theorem C05_reachable_in_Q : forall dbg hp hpo hd u, Reachable dbg hp hpo hd u -> ReachableQ dbg hp hpo hd u.
+Proof. exact reachable_Q. Qed.
+Check C05_reachable_in_Q : forall dbg hp hpo hd u, Reachable dbg hp hpo hd u -> ReachableQ dbg hp hpo hd u.
+Print Assumptions C05_reachable_in_Q.
+
+(* the hypotheses are met and the new steps are taken (Proofs/C05_FinEx2.v): parse "http://h.x/a?q"; quirks set_host
+   "o.x:81"; query_pairs_mut().append_pair("k'", "v w~"); join "../w v#f`" against the result (a base that comes straight
+   out of mutator steps) gives "http://o.x:81/w%20v#f%60", with alphabet_ok and sharp *)
+Example C05_reachF_inhabited : finF_example_stmt.
+Proof. exact finF_example. Qed.
+
+(* ================= 6. the host clause (last sentence of the property text) ================= *)
+(* where the host text of a parse result comes from (Proofs/C05_HostParse.v), every parser arm, any input numbers:
+   HostRes base u := hosti u = HI_None
+                  \/ the stored host text ht u is the Display of a non-empty host that the host parser of the scheme
+                     class of u returned (hp = Host::parse for special schemes, hpo = Host::parse_opaque otherwise)
+                  \/ the base has a host, ht u = ht b and u has the scheme class of b.
+   Base: well formed, host_text_ok, bk. *)
+Theorem C05_parse_host_origin : forall dbg hp hpo hd ovr base input u, HostWf hp hpo hd ->
+  match base with Some b => wf_b b = true /\ C06_Suffix.host_text_ok b /\ bk b | None => True end ->
+  parse_url dbg hp hpo hd ovr base input = POk u -> HostRes hp hpo hd base u.
+Proof. intros dbg hp hpo hd ovr base input u HW. exact (parse_url_host dbg hp hpo hd ovr HW base input u). Qed.
+Check C05_parse_host_origin : forall dbg hp hpo hd ovr base input u, HostWf hp hpo hd ->
+  match base with Some b => wf_b b = true /\ C06_Suffix.host_text_ok b /\ bk b | None => True end ->
+  parse_url dbg hp hpo hd ovr base input = POk u -> HostRes hp hpo hd base u.
+Print Assumptions C05_parse_host_origin.
+
+(* HostSpQ hp hd Q (Proofs/C05_HostClause.v): every host other than the empty one that hp (Host::parse, the parser of
+   special schemes) returns, and every address value, is displayed as a text that satisfies Q.
+   HC Q u: if the scheme of u is special, what Url::host_str() returns satisfies Q.
+   For EVERY record of CReachF (parse, join, gated steps of the 19 mutators, query_pairs_mut sessions): a special URL
+   never gets its host from Host::parse_opaque, and the scheme class only goes from special to special. *)
+Theorem C05_host_clause_reachF : forall dbg hp hpo hd Q u,
+  HostSpQ hp hd Q -> HostWf hp hpo hd -> IpDisp hd -> HostOK hp hpo hd -> IpOKv hd ->
+  CReachF dbg hp hpo hd u -> HC Q u.
+Proof. intros dbg hp hpo hd Q u HQ HW HI HOK HV. exact (creachF_hc dbg hp hpo hd Q HQ HW HI HOK HV u). Qed.
+Check C05_host_clause_reachF : forall dbg hp hpo hd Q u,
+  HostSpQ hp hd Q -> HostWf hp hpo hd -> IpDisp hd -> HostOK hp hpo hd -> IpOKv hd ->
+  CReachF dbg hp hpo hd u -> HC Q u.
+Print Assumptions C05_host_clause_reachF.
+
+(* along histories of gated steps and sessions from any start record with FInv and HC (GHistF) *)
+Theorem C05_host_clause_history : forall dbg hp hpo hd Q u u',
+  HostSpQ hp hd Q -> HostWf hp hpo hd -> IpDisp hd -> HostOK hp hpo hd -> IpOKv hd ->
+  GHistF dbg hp hpo hd u u' -> FInv dbg u -> HC Q u -> FInv dbg u' /\ HC Q u'.
+Proof. intros dbg hp hpo hd Q u u' HQ HW HI HOK HV. exact (hc_history dbg hp hpo hd Q HQ HW HI HOK HV u u'). Qed.
+Check C05_host_clause_history : forall dbg hp hpo hd Q u u',
+  HostSpQ hp hd Q -> HostWf hp hpo hd -> IpDisp hd -> HostOK hp hpo hd -> IpOKv hd ->
+  GHistF dbg hp hpo hd u u' -> FInv dbg u -> HC Q u -> FInv dbg u' /\ HC Q u'.
+Print Assumptions C05_host_clause_history.
+
+(* the hypotheses are met (Proofs/C05_FinEx2.v): Q = "inside 0x21..0x7E" for the example host functions; parse
+   "http://h.x/a?q" satisfies FInv and HC, quirks set_host "o.x:81" is a gated step, the result has host text "o.x" *)
+Example C05_host_clause_inhabited : hc_example_stmt.
+Proof. exact hc_example. Qed.
+
+(* ---- linked with the host model (Model/Host.v), premise IdnaOK only (Proofs/C05_HostInst.v).
+   host_text_clean s := s is a bracketed IPv6 literal, or every byte of s is ASCII, not an upper-case letter and not a
+   forbidden domain code point of the Standard (forbidden host code points, C0 controls, '%', DEL).
+   HostSpQ holds for the model: domains by C09's domain_form, IPv4 text is digits and dots. *)
+Theorem C05_host_model_clean : forall idna, IdnaOK idna -> HostSpQ (host_parse idna) host_display host_text_clean.
+Proof. exact model_HostSpQ. Qed.
+Check C05_host_model_clean : forall idna, IdnaOK idna -> HostSpQ (host_parse idna) host_display host_text_clean.
+Print Assumptions C05_host_model_clean.
+
+(* the property text of C05 for every record of CReachF of the linked model: the invariant (component clauses, AS, byte
+   alphabet, space-free host text), alphabet_ok, sharp, base_ok, and the host clause *)
+Theorem C05_reachF_model : forall dbg idna, IdnaOK idna -> forall u,
+  CReachF dbg (host_parse idna) host_parse_opaque host_display u ->
+  (wfh u /\ components_clean dbg u) /\ alphabet_ok u /\ sharp u /\ base_ok u = true
+  /\ (spb u = true -> forall s, host_str u = Some (Some s) -> host_text_clean s).
+Proof.
+  intros dbg idna OK u R. split; [exact (reachF_components_model idna OK dbg u R)|].
+  split; [exact (reachF_alphabet_model idna OK dbg u R)|]. split; [exact (reachF_sharp_model idna OK dbg u R)|].
+  split; [exact (proj1 (reachF_base_ok_model idna OK dbg u R)) | exact (reachF_host_clean_model idna OK dbg u R)].
+Qed.
+Check C05_reachF_model : forall dbg idna, IdnaOK idna -> forall u,
+  CReachF dbg (host_parse idna) host_parse_opaque host_display u ->
+  (wfh u /\ components_clean dbg u) /\ alphabet_ok u /\ sharp u /\ base_ok u = true
+  /\ (spb u = true -> forall s, host_str u = Some (Some s) -> host_text_clean s).
+Print Assumptions C05_reachF_model.
+
+(* ================= 7. the backslash clause: special-scheme paths contain no '\' ================= *)
+(* the hierarchical path states for a special scheme, in EVERY context (URL parser, Url::set_path, path_segments_mut)
+   and for ANY input numbers, keep the text in front of the path and write no backslash: in the parser / set_path
+   contexts '\' is a separator (written as '/'), in the path_segments_mut context SPECIAL_PATH_SEGMENT encodes it *)
+Theorem C05_special_path_states : forall dbg ctx st hh s0 l s1 hh' rem, st_is_special st = true ->
+  parse_path_start dbg ctx st hh s0 l = POk (s1, hh', rem) ->
+  exists P, s1 = s0 ++ P /\ forallb nb P = true.
+Proof. exact parse_path_start_nb. Qed.
+Check C05_special_path_states : forall dbg ctx st hh s0 l s1 hh' rem, st_is_special st = true ->
+  parse_path_start dbg ctx st hh s0 l = POk (s1, hh', rem) ->
+  exists P, s1 = s0 ++ P /\ forallb nb P = true.
+Print Assumptions C05_special_path_states.
+
+(* BS u := special scheme -> every byte of the stored path slice is not '\'.  Every record parse_url returns, any input
+   numbers, no hypothesis on the host functions; base: wf_b, AS, BS *)
+Theorem C05_special_path_parse : forall dbg hp hpo hd ovr base input u,
+  match base with Some b => wf_b b = true /\ AS b /\ BS b | None => True end ->
+  parse_url dbg hp hpo hd ovr base input = POk u -> BS u.
+Proof. exact parse_url_bs. Qed.
+Check C05_special_path_parse : forall dbg hp hpo hd ovr base input u,
+  match base with Some b => wf_b b = true /\ AS b /\ BS b | None => True end ->
+  parse_url dbg hp hpo hd ovr base input = POk u -> BS u.
+Print Assumptions C05_special_path_parse.
+
+(* every record of CReachF with a special scheme is not cannot-be-a-base and its path() contains no '\' *)
+Theorem C05_special_path_reachF : forall dbg hp hpo hd u, HostWf hp hpo hd -> HostOK hp hpo hd -> IpDisp hd -> IpOKv hd ->
+  CReachF dbg hp hpo hd u -> spb u = true ->
+  cannot_be_a_base u = Some false /\ forall p, path u = Some p -> ~ In 92 p.
+Proof. intros dbg hp hpo hd u HW HOK HI HV. exact (creachF_special_path dbg hp hpo hd HW HOK HI HV u). Qed.
+Check C05_special_path_reachF : forall dbg hp hpo hd u, HostWf hp hpo hd -> HostOK hp hpo hd -> IpDisp hd -> IpOKv hd ->
+  CReachF dbg hp hpo hd u -> spb u = true ->
+  cannot_be_a_base u = Some false /\ forall p, path u = Some p -> ~ In 92 p.
+Print Assumptions C05_special_path_reachF.
+
+Theorem C05_special_path_model : forall dbg idna, IdnaOK idna -> forall u,
+  CReachF dbg (host_parse idna) host_parse_opaque host_display u -> spb u = true ->
+  cannot_be_a_base u = Some false /\ forall p, path u = Some p -> ~ In 92 p.
+Proof. intros dbg idna OK. exact (reachF_special_path_model idna OK dbg). Qed.
+Check C05_special_path_model : forall dbg idna, IdnaOK idna -> forall u,
+  CReachF dbg (host_parse idna) host_parse_opaque host_display u -> spb u = true ->
+  cannot_be_a_base u = Some false /\ forall p, path u = Some p -> ~ In 92 p.
+Print Assumptions C05_special_path_model.
+
+(* non-vacuity (Proofs/C05_FinEx2.v): parse "http://h.x\a"; set_path("x\y"); path_segments_mut().push("c\d") is a history
+   of CReachF and gives "http://h.x/x/y/c%5Cd" *)
+Example C05_special_path_inhabited : bs_example_stmt.
+Proof. exact bs_example. Qed.
 
 (* ================= non-vacuity ================= *)
 Definition ex_hp (s : list N) : result host := Ok (HDomain s).
